@@ -269,6 +269,18 @@ fn stmt_json(s: &Stmt) -> Option<Value> {
                 Item::Const(c) => json!({"k":"item_const","l":line(c),"name":c.ident.to_string(),
                     "ty":toks(&c.ty),"init":expr_json(&c.expr)}),
                 Item::Macro(m) => mac_json(&m.mac),
+                Item::Impl(im) => {
+                    let mut fns = vec![];
+                    for ii in &im.items {
+                        if let ImplItem::Fn(f) = ii {
+                            fns.push(json!({"k":"item_fn","l":line(f),"name":f.sig.ident.to_string(),
+                                "params": sig_params(&f.sig), "ret": ret_str(&f.sig.output),
+                                "body": block_json(&f.block)}));
+                        }
+                    }
+                    json!({"k":"item_impl","l":line(im),"self_ty":toks(&im.self_ty),
+                        "trait": im.trait_.as_ref().map(|(_, p, _)| toks(p)), "fns": fns})
+                }
                 other => json!({"k":"item_other","l":line(other)}),
             }
         }
